@@ -31,6 +31,20 @@ func c02Open(path, kind string) (*database.Database, error) {
 	switch kind {
 	case "fallback":
 		return recovery.NewDatabaseRecovery(recovery.RetryConfig{MaxAttempts: 1}).LoadDatabaseWithFallback(path+".does-not-exist", path+".no-notebook")
+	case "refreshed": // loaded, then refreshed through the caching wrapper with a freshly loaded, textually identical list
+		db, err := database.LoadDatabase(path)
+		if err != nil {
+			return nil, err
+		}
+		again, err := database.LoadDatabase(path)
+		if err != nil {
+			return nil, err
+		}
+		db.SearchUniversal("warm up", database.SearchOptions{UseNLP: true})
+		if len(again.Commands) > 0 {
+			database.NewCachedDatabase(db).UpdateDatabase(again.Commands)
+		}
+		return db, nil
 	case "literal":
 		l, err := database.LoadDatabase(path)
 		if err != nil {
@@ -110,7 +124,7 @@ func engineDeterminism(ctx *Ctx) {
 		}
 		kind := "file"
 		if dbName != "shipped" {
-			kind = []string{"file", "file", "file", "literal", "fallback"}[d%5]
+			kind = []string{"file", "file", "refreshed", "literal", "fallback", "file"}[d%6]
 		}
 		dbName += "/" + kind
 		var db *database.Database
@@ -129,7 +143,11 @@ func engineDeterminism(ctx *Ctx) {
 		if len(words) > 2000 {
 			words = words[:2000]
 		}
-		job := c02Job{DBPath: dbp, Kind: kind}
+		otherKind := kind
+		if kind == "refreshed" {
+			otherKind = "file" // a refreshed database holds the same content as a plainly loaded one: the answers must agree
+		}
+		job := c02Job{DBPath: dbp, Kind: otherKind}
 		for qi := 0; qi < nQ; qi++ {
 			q := vlib.GenQuery(r, words, 1+r.Intn(4), []int{0, 0, 1, 2}[r.Intn(4)])
 			if strings.HasPrefix(dbName, "shipped") && qi == 0 {
@@ -149,6 +167,13 @@ func engineDeterminism(ctx *Ctx) {
 			if qi%4 == 3 {
 				o.UseNLP = true
 			}
+			if qi%5 == 1 { // boost keys that differ only in case / surrounding blanks, with different factors
+				if toks := vlib.Tokenize(q); len(toks) > 0 {
+					w := toks[r.Intn(len(toks))]
+					o.ContextBoosts = map[string]float64{w: 1.5, strings.ToUpper(w): 4, strings.ToUpper(w[:1]) + w[1:]: 9, w + " ": 2.5, " " + w: 6}
+					ctx.R.Path("colliding-boost-keys", 1)
+				}
+			}
 			sq := q
 			if len(words) > 0 {
 				sq = vlib.Misspell(r, words[r.Intn(len(words))])
@@ -161,7 +186,7 @@ func engineDeterminism(ctx *Ctx) {
 		// fresh loads of the same file
 		fresh := []*database.Database{}
 		for i := 0; i < loads; i++ {
-			f, err := c02Open(dbp, kind)
+			f, err := c02Open(dbp, otherKind)
 			if err == nil {
 				fresh = append(fresh, f)
 			}
